@@ -20,7 +20,7 @@ func init() {
 			"(authorization appended before the device can report, key written before any authorization is accepted: C06/C07 ORDER rules) - these are the premises of the README's argument that reading dependents first yields a dependency-closed, record-aligned snapshot; " +
 			"SECRET the zip writer receives bytes only from (a) files named by ranging over PublicFiles, which does not contain server.keys, (b) the first result (public half) of the key loader, never the private half or the key file's tail, and (c) the constant README; " +
 			"LIMIT the rate-limit test dominates the creation of the archive and uses the limiter constructed from apiArchiveLimit/apiArchiveRate (positive constants in every configuration), and the structural rules of the limiter itself (C19: expiry keeps exactly the timestamps inside the window, admission iff fewer than the limit remain, all under its mutex) are re-run here. " +
-			"PREFIX the archive entry of a public file is io.Copy of the opened *os.File itself up to EOF (no limiting or offset reader), which with append-only writers is a record-aligned prefix. the device-table rules of C06 and the builder rules of C03 are re-run as premises of the closure argument. NOT decided: atomicity of a single write(2) against a concurrent read(2) (operating system, trusted); actual interleavings of writers with the archive loop.",
+			"PREFIX the archive entry of a public file is io.Copy of the opened *os.File itself up to EOF (no limiting or offset reader), which with append-only writers is a record-aligned prefix. the device-table rules of C06 and the builder rules of C03 are re-run as premises of the closure argument. The one-shot registration rule of C07 (the key file is written at most once) and the saver rule of C03 (the archived record is written as signed) are re-run. NOT decided: atomicity of a single write(2) against a concurrent read(2) (operating system, trusted); actual interleavings of writers with the archive loop.",
 		Assumptions: append([]string{"an O_APPEND write of one buffer and a concurrent read see either none or all of the record (README: File Writing and Archiving)"}, baseAssumptions...),
 		Run:         runC14,
 	})
@@ -240,7 +240,6 @@ func runC14(c *an.Ctx) {
 		}
 		c.Scope(builder)
 	}
-	handlerFi := hfi
 	hfi = p.Info(builder)
 	// handler order: range over PublicFiles calling addFile, pubkey after the loop
 	var rng *ssa.Range
@@ -325,8 +324,35 @@ func runC14(c *an.Ctx) {
 		c.Check(ok, "APPEND", nil, 0, "append-only:"+f, f+" is only ever written append-1 (so a concurrent archive read sees a record-aligned prefix)", strings.Join(protos, ", "))
 	}
 
-	// LIMIT
-	hfi = handlerFi
+	archiveLimitRules(c, handler, builderCall)
+	// premises of the README's closure argument, owned by other properties and re-run: an authorization is on disk
+	// before the device can report (C06 persist-first), and an archived week's record is signed over its final contents
+	// (C03 builder rules), so every archived statistic verifies under the archived server key
+	authTableRules(c, "C14")
+	if b := findBuilder(p); b != nil {
+		buildRules(c, b)
+	}
+	// the GCA key file is read without a lock, after the authorizations that it must verify: it is written once and
+	// never again (one-shot registration, rule owned by C07), so whichever moment the archiver reads it, it holds the key
+	// every archived authorization was accepted under
+	if ks := findKeySaver(p); ks != nil {
+		registrationOneShot(c, ks)
+	}
+	// the archived week that is written is the record that was signed (rule owned by C03)
+	statsSaverRule(c)
+	// the limiter's own sliding-window rules (owned by C19) are a premise of "no more than the configured number per window": re-run
+	runC19(c)
+}
+
+// archiveLimitRules (LIMIT): the archive is built only after the limiter admitted the request, with the server's
+// archive limiter, constructed from positive constants. Owned by C14; re-run by C19 for "enforced at the endpoint".
+func archiveLimitRules(c *an.Ctx, handler *ssa.Function, builderCall *ssa.Call) {
+	p := c.P
+	hfi := p.Info(handler)
+	isCreate := func(call *ssa.Call) bool {
+		sc := call.Call.StaticCallee()
+		return sc != nil && an.IsRepoFunc(sc) && sc.Signature.Results().Len() == 1 && strings.Contains(sc.Signature.Results().At(0).Type().String(), "zipArchiveWriter")
+	}
 	var allow *ssa.Call
 	var newArchive *ssa.Call
 	for _, b := range handler.Blocks {
@@ -427,13 +453,50 @@ func runC14(c *an.Ctx) {
 		}
 		c.Check(okCtor, "LIMIT", ctor, ctor.Pos(), an.KeyOf(ctor, "limiter-constructed"), "the archive limiter is constructed from the configured constants", "glow.NewRateLimiter(const, const)")
 	}
-	// premises of the README's closure argument, owned by other properties and re-run: an authorization is on disk
-	// before the device can report (C06 persist-first), and an archived week's record is signed over its final contents
-	// (C03 builder rules), so every archived statistic verifies under the archived server key
-	authTableRules(c, "C14")
-	if b := findBuilder(p); b != nil {
-		buildRules(c, b)
+}
+
+// findArchiveHandler: the http root that reaches the zip writer, and (if the archive is built in a helper that only the
+// handler calls) the call of that helper.
+func findArchiveHandler(p *an.Program) (handler *ssa.Function, builderCall *ssa.Call) {
+	var zipAdd *ssa.Function
+	for _, fn := range p.FuncsIn("server") {
+		if fn.Name() == "AddFile" && fn.Signature.Recv() != nil {
+			zipAdd = fn
+		}
 	}
-	// the limiter's own sliding-window rules (owned by C19) are a premise of "no more than the configured number per window": re-run
-	runC19(c)
+	if zipAdd == nil {
+		return nil, nil
+	}
+	for _, r := range rootsOf(p, "server", "http") {
+		if p.SyncReach(r.Fn)[zipAdd] {
+			handler = r.Fn
+		}
+	}
+	if handler == nil {
+		return nil, nil
+	}
+	creates := func(fn *ssa.Function) bool {
+		for _, b := range fn.Blocks {
+			for _, in := range b.Instrs {
+				if call, ok := in.(*ssa.Call); ok {
+					if sc := call.Call.StaticCallee(); sc != nil && an.IsRepoFunc(sc) && sc.Signature.Results().Len() == 1 && strings.Contains(sc.Signature.Results().At(0).Type().String(), "zipArchiveWriter") {
+						return true
+					}
+				}
+			}
+		}
+		return false
+	}
+	if !creates(handler) {
+		for _, b := range handler.Blocks {
+			for _, in := range b.Instrs {
+				if call, ok := in.(*ssa.Call); ok {
+					if sc := call.Call.StaticCallee(); sc != nil && sc.Pkg == handler.Pkg && creates(sc) && calledOnlyFrom(p, sc, handler) {
+						builderCall = call
+					}
+				}
+			}
+		}
+	}
+	return handler, builderCall
 }
